@@ -960,6 +960,10 @@ def emit_fn(unit, loc, dlines, tmpl_where):
                 raise AnchorLost('%s: signature text `%s` not found' % (fn_id, a))
             sig = sig.replace(a, b)
             log.append(('SIG', a, b))
+    if re.search(r'[(,]\s*_\s*:', sig):
+        sig2 = re.sub(r'([(,]\s*)_(\s*:)', r'\1_vx_unused\2', sig)
+        log.append(('SIG', 'unnamed parameter `_`', '_vx_unused'))
+        sig = sig2
     if ret:
         sig = _name_return(sig, ret)
     if vis:
